@@ -340,7 +340,10 @@ where
         info.set_dirty(true);
         info.set_last_accessed(timestamp);
         info.set_last_modified(timestamp);
-        info.set_policy_weight(policy_weight);
+        // The policy weight of the shared `EntryInfo` is updated when the write op is
+        // applied (`handle_upsert`), so that it always equals the weight the eviction
+        // counters hold for this entry.
+        let _ = policy_weight;
         TrioArc::new(ValueEntry::new(value, info))
     }
 
@@ -823,8 +826,23 @@ where
 
         if entry.is_admitted() {
             // The entry has been already admitted, so treat this as an update.
-            counters.saturating_sub(0, old_weight);
-            counters.saturating_add(0, new_weight);
+            // (`old_weight` was read when the op was queued and may be stale by now;
+            // the `EntryInfo` holds the weight currently counted.)
+            // Write ops can reach the channel in a different order than the hash map was
+            // updated: only the op carrying the value the map holds now sets the weight
+            // (the op of an older value is skipped; the one of the current value comes, or
+            // came, on its own).
+            let _ = old_weight;
+            let is_current_entry = self
+                .cache
+                .get(&kh.key)
+                .map(|e| TrioArc::ptr_eq(&*e, &entry))
+                .unwrap_or(false);
+            if is_current_entry {
+                counters.saturating_sub(0, entry.policy_weight());
+                counters.saturating_add(0, new_weight);
+                entry.entry_info().set_policy_weight(new_weight);
+            }
             deqs.move_to_back_ao(&entry);
             deqs.move_to_back_wo(&entry);
             return;
@@ -848,6 +866,7 @@ where
         // Let the deque nodes share the key object held by the hash map (this op may
         // carry another, equal, key object if it was created by an update).
         let kh = KeyHash::new(map_key.unwrap_or_else(|| Arc::clone(&kh.key)), kh.hash);
+        entry.entry_info().set_policy_weight(new_weight);
         // Removes the candidate from the hash map, unless a newer value (which has its
         // own pending write op) has replaced it.
         let remove_candidate = || {
